@@ -94,6 +94,15 @@ fn cases() -> Vec<Case> {
         g("omerc ellps=GRS80 variant latc=47.14439372222 lonc=19.04857177778 alpha=90 gamma_c=90 k_0=0.99993 x_0=650000 y_0=200000", (16.0, 23.0), (45.5, 48.7), 1e-3),
         g("merc lon_0=-150 lat_ts=-30 x_0=100 y_0=-200 ellps=intl", (-180.0, 180.0), (-80.0, 80.0), 1e-5),
         g("lcc lat_1=-20 lat_2=-50 lat_0=-35 lon_0=140 ellps=GRS80", (110.0, 170.0), (-70.0, -5.0), 1e-5),
+        // spherical figures (eccentricity exactly 0) and a strongly flattened one
+        g("laea ellps=sphere lat_0=52 lon_0=10", (-60.0, 80.0), (-20.0, 85.0), 1e-5),
+        g("lcc ellps=sphere lat_1=33 lat_2=45 lat_0=35 lon_0=10", (-100.0, 120.0), (-30.0, 85.0), 1e-5),
+        g("merc ellps=sphere lat_ts=30", (-179.0, 179.0), (-85.0, 85.0), 1e-5),
+        g("tmerc ellps=sphere lon_0=9 k_0=0.9996", (-15.0, 33.0), (-89.0, 89.0), 1e-5),
+        g("tmerc ellps=unitsphere lon_0=9", (-15.0, 33.0), (-89.0, 89.0), 1e-5),
+        Case { def: "cart ellps=sphere", lon: (-180.0, 180.0), lat: (-89.9, 89.9), heights: &[0.0, 1000.0], tol_m: 1e-5, angular_out: false },
+        Case { def: "latitude authalic ellps=sphere", lon: (-180.0, 180.0), lat: (-90.0, 90.0), heights: &[0.0], tol_m: 1e-5, angular_out: true },
+        Case { def: "latitude conformal ellps=sphere", lon: (-180.0, 180.0), lat: (-90.0, 90.0), heights: &[0.0], tol_m: 1e-5, angular_out: true },
     ]
 }
 
@@ -145,7 +154,7 @@ fn max_roundtrip(ctx: &mut Minimal, c: &Case, n: usize, inv_first: bool) -> Resu
     Ok((worst, evaluated, worst_at))
 }
 
-//@n {"id":"C01.N.roundtrip.lattice","props":["C01"],"tier":"quick","bound":"51 operator definitions (merc, webmerc, tmerc incl. lat_0 != 0 and southern origins, utm zones 1/32/60 N+S, btmerc/butm, lcc 1SP/2SP/N+S, laea polar N+S/equatorial/oblique, somerc, omerc variants A+B, Laborde (alpha only) north and south, alpha=90, cart on 3 ellipsoids up to 10^7 m, 5 auxiliary latitudes, helmert pipelines incl. exact and 14-parameter, molodensky full+abridged, permtide, a geo:in/out macro pipeline) x a 24x24 lattice (thorough tier: 96x96) over each documented domain x heights; forward-then-inverse and inverse-then-forward","text":"applying the operator forward and then inverse returns the original coordinate to within the stated accuracy (1e-5 m rigorous methods, 1e-3 m btmerc/omerc/molodensky/non-exact helmert/cart at 10^7 m), and the same inverse-then-forward; every lattice point inside the domain is counted; the epoch comes back bit-identical"}
+//@n {"id":"C01.N.roundtrip.lattice","props":["C01"],"tier":"quick","bound":"59 operator definitions (merc, webmerc, tmerc incl. lat_0 != 0 and southern origins, utm zones 1/32/60 N+S, btmerc/butm, lcc 1SP/2SP/N+S, laea polar N+S/equatorial/oblique, somerc, omerc variants A+B, Laborde (alpha only) north and south, alpha=90, spherical figures (ellps=sphere / unitsphere) for laea, lcc, merc, tmerc, cart, latitude, cart on 3 ellipsoids up to 10^7 m, 5 auxiliary latitudes, helmert pipelines incl. exact and 14-parameter, molodensky full+abridged, permtide, a geo:in/out macro pipeline) x a 24x24 lattice (thorough tier: 96x96) over each documented domain x heights; forward-then-inverse and inverse-then-forward","text":"applying the operator forward and then inverse returns the original coordinate to within the stated accuracy (1e-5 m rigorous methods, 1e-3 m btmerc/omerc/molodensky/non-exact helmert/cart at 10^7 m), and the same inverse-then-forward; every lattice point inside the domain is counted; the epoch comes back bit-identical"}
 #[test]
 fn verif_native_c01_roundtrip_lattice() {
     let mut ctx = Minimal::default();
